@@ -313,7 +313,13 @@ def run(ctx):
             for s_ in __import__("analysis.dispatch", fromlist=["subterms"]).subterms(r):
                 if isinstance(s_, App) and s_.fn in ("std::iter::Iterator::find", "std::iter::Iterator::position", "std::iter::Iterator::find_map") and s_.args:
                     parts = _loops.seq_parts(s_.args[0], p, fo[0]["path"], 0, allf)
-                    ok_here = parts == [("src", "ops", "fwd")] and "Iterator::enumerate(" in _rel.cstr(s_.args[0])
+                    if s_.fn == "std::iter::Iterator::position" and "Iterator::enumerate(" not in _rel.cstr(s_.args[0]):
+                        # position() over the list itself: the position IS the index; the operator handed out is the one at it
+                        found_ = isinstance(p.result, Variant) and p.result.variant in ("Some", "Ok")
+                        ok_here = parts == [("src", "ops", "fwd")] and (not found_ or _rel.cstr(r) in tuple(
+                            "%s{0: (ok(%s), index(ops, ok(%s)))}" % (w_, _rel.cstr(s_), _rel.cstr(s_)) for w_ in ("Option::Some", "Result::Ok")))
+                    else:
+                        ok_here = parts == [("src", "ops", "fwd")] and "Iterator::enumerate(" in _rel.cstr(s_.args[0])
                     src_ok = ok_here if src_ok is None else (src_ok and ok_here)
             # loop idiom: the loop's iterator on first arrival
             ts = _loops.trips(p, fo[0]["path"], 0)
